@@ -7,6 +7,7 @@ import (
 	"math/rand"
 	"os"
 	"os/exec"
+	"runtime"
 	"strings"
 
 	"go.lstv.dev/util/uu"
@@ -90,7 +91,10 @@ type execResult struct {
 	final    string // canonical final observation (for counting distinct outcomes)
 }
 
-func execute(h harness, ch sched.Chooser) execResult {
+func execute(h harness, ch sched.Chooser, procs int) execResult {
+	if procs > 0 { // GOMAXPROCS is a configuration the code under test can observe
+		defer runtime.GOMAXPROCS(runtime.GOMAXPROCS(procs))
+	}
 	src := &scripted{values: spread}
 	uu.VerifReset(src)
 	ids := make([][]uu.ID, h.threads)
@@ -142,15 +146,16 @@ func execute(h harness, ch sched.Chooser) execResult {
 
 type schedArg struct {
 	Harness string `json:"harness"`
-	Trail   []int  `json:"choices"` // index into the enabled list at every point with more than one enabled thread
+	Procs   int    `json:"gomaxprocs,omitempty"` // 0 = leave as is
+	Trail   []int  `json:"choices"`              // index into the enabled list at every point with more than one enabled thread
 }
 
 func probeSchedule(a schedArg) (string, string) {
 	h := harnesses[a.Harness]
 	f1 := &fixedChooser{trail: a.Trail}
-	r1 := execute(h, f1)
+	r1 := execute(h, f1, a.Procs)
 	f2 := &fixedChooser{trail: a.Trail}
-	r2 := execute(h, f2)
+	r2 := execute(h, f2, a.Procs)
 	if f1.bad || f2.bad || r1.final != r2.final || r1.outcome != r2.outcome || fmt.Sprint(r1.schedule) != fmt.Sprint(r2.schedule) {
 		return "replay_diverged", fmt.Sprintf("harness nondeterminism: replaying %v gave %q/%v then %q/%v", a.Trail, r1.outcome, r1.schedule, r2.outcome, r2.schedule)
 	}
@@ -303,10 +308,11 @@ func main() {
 		type plan struct {
 			h     string
 			bound int // -1 unbounded
+			procs int // GOMAXPROCS for the executions (0 = unchanged)
 		}
-		plans := []plan{{"2x1", -1}, {"2x2", -1}, {"3x1", -1}, {"2x3", 3}, {"3x2", 2}, {"4x1", 2}}
+		plans := []plan{{"2x1", -1, 0}, {"2x2", -1, 0}, {"3x1", -1, 0}, {"2x3", 3, 0}, {"3x2", 2, 0}, {"4x1", 2, 0}, {"2x2", -1, 1}, {"3x1", 2, 1}}
 		if !r.Quick() {
-			plans = []plan{{"2x1", -1}, {"2x2", -1}, {"3x1", -1}, {"2x3", -1}, {"4x1", -1}, {"3x2", 4}, {"4x2", 3}, {"3x3", 3}}
+			plans = []plan{{"2x1", -1, 0}, {"2x2", -1, 0}, {"3x1", -1, 0}, {"2x3", -1, 0}, {"4x1", -1, 0}, {"3x2", 4, 0}, {"4x2", 3, 0}, {"3x3", 3, 0}, {"2x2", -1, 1}, {"3x1", -1, 1}, {"2x3", 3, 1}, {"2x2", -1, 2}}
 		}
 		sched_stats := []map[string]any{}
 		for _, pl := range plans {
@@ -329,11 +335,15 @@ func main() {
 				if b < 0 {
 					bname = "unbounded (all interleavings)"
 				}
-				r.Phase(fmt.Sprintf("schedules: %d goroutines x %d calls, %s", h.threads, h.calls, bname), bname, func() {
+				pname := ""
+				if pl.procs > 0 {
+					pname = fmt.Sprintf(", GOMAXPROCS=%d", pl.procs)
+				}
+				r.Phase(fmt.Sprintf("schedules: %d goroutines x %d calls, %s%s", h.threads, h.calls, bname, pname), bname, func() {
 					finals := map[string]bool{}
 					var maxPoints int
 					st := r.Explore(b, 0, func(w *mc.W, c *mc.Ctx) {
-						res := execute(h, ctxChooser{c})
+						res := execute(h, ctxChooser{c}, pl.procs)
 						w.Point()
 						w.Calls(int64(res.points))
 						if c.Devs() > 0 {
@@ -344,14 +354,14 @@ func main() {
 							maxPoints = res.points
 						}
 						if res.outcome != "" {
-							pS.Do(w, schedArg{Harness: h.name, Trail: c.Trail()})
+							pS.Do(w, schedArg{Harness: h.name, Procs: pl.procs, Trail: c.Trail()})
 							w.Outcome("violating schedule")
 						} else {
 							w.Outcome("clean schedule")
 						}
 					})
 					r.Serial(func(w *mc.W) { w.Outcome(fmt.Sprintf("harness %s", h.name)) })
-					sched_stats = append(sched_stats, map[string]any{"harness": h.name, "preemption_bound": b, "schedules": st.Executions, "max_choice_depth": st.MaxDepth, "max_scheduling_points": maxPoints, "distinct_final_outcomes": len(finals)})
+					sched_stats = append(sched_stats, map[string]any{"harness": h.name, "gomaxprocs": pl.procs, "preemption_bound": b, "schedules": st.Executions, "max_choice_depth": st.MaxDepth, "max_scheduling_points": maxPoints, "distinct_final_outcomes": len(finals)})
 				})
 			}
 		}
@@ -390,13 +400,27 @@ func main() {
 				w.Outcome("real generator")
 			})
 		})
+		type raceRun struct {
+			g, n  string
+			procs string
+		}
+		raceRuns := []raceRun{{"16", "2000", ""}, {"8", "2000", "1"}}
 		if !r.Quick() {
-			r.Phase("supplement (not deciding): free-running 64 goroutines x 10000 draws under the Go race detector (real sync.Mutex, real generator)", "one free run", func() {
+			raceRuns = []raceRun{{"64", "10000", ""}, {"16", "10000", "1"}, {"4", "50000", "2"}}
+		}
+		for _, rr := range raceRuns {
+			rr := rr
+			r.Phase(fmt.Sprintf("supplement (not deciding): free-running %s goroutines x %s draws under the Go race detector (real sync, real generator, first calls of a fresh process concurrent), GOMAXPROCS=%q", rr.g, rr.n, rr.procs), "one free run", func() {
 				bin := os.Args[0] + ".race"
-				out, err := exec.Command(bin, "-g", "64", "-n", "10000").CombinedOutput()
-				r.Extra["race_supplement_output"] = strings.TrimSpace(lastLines(string(out), 3))
+				cmd := exec.Command(bin, "-g", rr.g, "-n", rr.n)
+				cmd.Env = os.Environ()
+				if rr.procs != "" {
+					cmd.Env = append(cmd.Env, "GOMAXPROCS="+rr.procs)
+				}
+				out, err := cmd.CombinedOutput()
+				r.Extra["race_supplement_output_"+rr.g+"x"+rr.n+"_procs"+rr.procs] = strings.TrimSpace(lastLines(string(out), 3))
 				if err != nil {
-					path := mc.Root + "/replays/C19/race_supplement.log"
+					path := mc.Root + "/replays/C19/race_supplement_" + rr.g + "x" + rr.n + "_procs" + rr.procs + ".log"
 					os.MkdirAll(mc.Root+"/replays/C19", 0o755)
 					os.WriteFile(path, out, 0o644)
 					if strings.Contains(string(out), "DATA RACE") || strings.Contains(string(out), "duplicates=") {
